@@ -101,15 +101,20 @@ type c13World struct {
 	threads int
 	target  int // index of the message the server refuses (-1: none)
 	quoted  bool
+	allFail bool // the server refuses the first recipient of every message (with an enhanced status code)
 }
 
 func c13Build(r *vf.Run, scn c13Scn, hook func(string)) *c13World {
 	w := &c13World{target: -1, quoted: scn.Quoted}
-	if scn.Fault > 0 {
+	if scn.Fault > 0 && scn.Fault != 4 {
 		w.target = (scn.Senders + scn.Dialers + scn.Pool - 1) * scn.PerCall
 	}
+	w.allFail = scn.Fault == 4
 	w.rig = &hx.Rig{Mk: func(n int) *refsmtp.Conn {
 		caps := []string{"8BITMIME"}
+		if scn.Fault == 4 {
+			caps = append(caps, "ENHANCEDSTATUSCODES")
+		}
 		if scn.Auth != "" {
 			caps = append(caps, "AUTH LOGIN SCRAM-SHA-256 CRAM-MD5")
 		}
@@ -129,6 +134,9 @@ func c13Build(r *vf.Run, scn c13Scn, hook func(string)) *c13World {
 				case "MAIL":
 					inTarget = strings.Contains(ev.Line, hx.Sender(w.target))
 				case "RCPT":
+					if scn.Fault == 4 && strings.Contains(ev.Line, "-0@") {
+						return refsmtp.Action{Kind: refsmtp.ActReply, Code: 550, Text: []string{"5.1.1 no such user"}}
+					}
 					if inTarget && scn.Fault <= 2 && strings.Contains(ev.Line, hx.Rcpt(w.target, 0)) {
 						rsetFails = scn.Fault == 2
 						return refsmtp.Action{Kind: refsmtp.ActReply, Code: 550, Text: []string{"5.1.1 no such user"}}
@@ -231,6 +239,19 @@ func c13QLocal(role string, i, j int) string { return fmt.Sprintf("%s %d %d q", 
 
 // c13Judge applies the oracle after all bodies returned.
 func c13Judge(w *c13World, add func(key, f string, a ...interface{})) {
+	if w.allFail {
+		for t, e := range w.errs {
+			if e == nil {
+				add("refusal-not-reported", "thread %d: the server refused a recipient of every message but the call returned nil", t)
+			}
+		}
+		for ci, c := range w.rig.Conns {
+			if len(c.S.Commits) > 0 {
+				add("refused-message-committed", "connection %d committed %d message(s) although a recipient of every message was refused", ci, len(c.S.Commits))
+			}
+		}
+		return
+	}
 	total := 0
 	for _, ms := range w.msgs {
 		total += len(ms)
@@ -346,15 +367,24 @@ func c13RacePass(iter int) int {
 	bad := 0
 	rng := rand.New(rand.NewSource(int64(iter)))
 	var rmu sync.Mutex
+	firstUse := iter < 0
+	if firstUse {
+		iter = 1
+	}
 	for it := 0; it < iter; it++ {
-		for _, scn := range []c13Scn{{"2", 2, 0, 1, "", 0, false, false, 0, 0, false}, {"8", 6, 2, 1, "", 0, false, false, 0, 0, false}, {"64", 48, 16, 1, "", 0, false, false, 0, 0, false}, {"3x2", 3, 0, 2, "", 0, false, false, 0, 0, false}, {"dial", 0, 4, 1, "", 0, false, false, 0, 0, false},
+		list := []c13Scn{{"2", 2, 0, 1, "", 0, false, false, 0, 0, false}, {"8", 6, 2, 1, "", 0, false, false, 0, 0, false}, {"64", 48, 16, 1, "", 0, false, false, 0, 0, false}, {"3x2", 3, 0, 2, "", 0, false, false, 0, 0, false}, {"dial", 0, 4, 1, "", 0, false, false, 0, 0, false},
 			{"dial+login", 0, 6, 1, "LOGIN", 0, false, false, 0, 0, false}, {"mixed+scram", 3, 5, 1, "SCRAM-SHA-256", 0, false, false, 0, 0, false}, {"mixed+auto", 2, 6, 1, "AUTODISCOVER", 0, false, false, 0, 0, false},
 			{"mixed+debuglog", 4, 4, 1, "", 0, true, false, 0, 0, false}, {"dial+login+debuglog", 0, 6, 1, "LOGIN", 0, true, false, 0, 0, false},
 			{"mixed+quoted-local-parts", 3, 6, 1, "", 0, false, true, 0, 0, false},
 			{"dial+starttls", 0, 6, 1, "", 0, false, false, 1, 0, false}, {"dial+starttls(caller's config without server name)", 0, 6, 1, "", 0, false, false, 2, 0, false},
 			{"mixed+starttls+login(caller's config without server name)", 2, 4, 1, "LOGIN", 0, false, false, 2, 0, false},
 			{"mixed+own-connections", 2, 2, 1, "", 0, false, false, 0, 4, false}, {"own-connections+scram+starttls", 0, 0, 1, "SCRAM-SHA-256", 0, false, false, 1, 6, false},
-			{"dial+fallback-port", 0, 6, 1, "", 0, false, false, 0, 2, true}} {
+			{"dial+fallback-port", 0, 6, 1, "", 0, false, false, 0, 2, true}}
+		if firstUse {
+			// a fresh process whose very first failures happen in several goroutines at once (lazily initialised state)
+			list = []c13Scn{{Name: "first failures of the process, 8 dialers, every message refused", Dialers: 8, PerCall: 1, Fault: 4}, {Name: "first failures, senders and dialers", Senders: 1, Dialers: 4, PerCall: 1, Fault: 4}}
+		}
+		for _, scn := range list {
 			if scn.Senders+scn.Dialers+scn.Pool > 16 && it%4 != 0 {
 				continue
 			}
@@ -401,7 +431,7 @@ func init() {
 	vf.Register(&vf.Check{
 		ID: "C13", Title: "concurrent use of one Client is safe",
 		Run: func(r *vf.Run) {
-			r.SetRule("scenarios {2×Send(1 msg), 2×Send(2 msgs), 3×Send(1), 2×DialAndSend, Send+DialAndSend, 2×Send+DialAndSend, 2×DialAndSend with LOGIN / SCRAM authentication, Send+DialAndSend with auto-discovered authentication; scenarios with debug logging through the library's own logger, scenarios whose envelope addresses need quoting, scenarios in which the primary port refuses and every connection comes from the fallback port of a port policy (each dial attempt is a visible operation), scenarios in which goroutines use the connection-per-caller API (DialToSMTPClientWithContext, SendWithSMTPClient, CloseWithSMTPClient) next to each other and next to Send / DialAndSend, scenarios in which every connection negotiates STARTTLS (real crypto/tls handshakes) with one caller-supplied tls.Config that does not name the server, and scenarios in which the server refuses one message (a recipient with or without a failing clean-up RSET, or DATA) of one thread while the other threads' messages must be unaffected} on one Client; ALL interleavings at visible operations (every Lock/RLock of go-mail's mutexes through the sync shim, every connection Read/Write/Close) up to the preemption bound, under a cooperative scheduler that models Go's RWMutex (a waiting writer blocks new readers); oracle per schedule: protocol monitor on every connection, commit log = every message the server did not refuse exactly once with its own envelope and complete content (a refused one never), exactly the calls without a refused message return nil, no deadlock; plus a separate free-running pass of the same bodies under the Go race detector (2..64 goroutines, jittered I/O) — that pass samples schedules; distinct by (scenario, schedule)")
+			r.SetRule("scenarios {2×Send(1 msg), 2×Send(2 msgs), 3×Send(1), 2×DialAndSend, Send+DialAndSend, 2×Send+DialAndSend, 2×DialAndSend with LOGIN / SCRAM authentication, Send+DialAndSend with auto-discovered authentication; scenarios with debug logging through the library's own logger, scenarios whose envelope addresses need quoting, scenarios in which the primary port refuses and every connection comes from the fallback port of a port policy (each dial attempt is a visible operation), scenarios in which goroutines use the connection-per-caller API (DialToSMTPClientWithContext, SendWithSMTPClient, CloseWithSMTPClient) next to each other and next to Send / DialAndSend, scenarios in which every connection negotiates STARTTLS (real crypto/tls handshakes) with one caller-supplied tls.Config that does not name the server, and scenarios in which the server refuses one message (a recipient with or without a failing clean-up RSET, or DATA) of one thread while the other threads' messages must be unaffected} on one Client; ALL interleavings at visible operations (every Lock/RLock of go-mail's mutexes through the sync shim, every connection Read/Write/Close) up to the preemption bound, under a cooperative scheduler that models Go's RWMutex (a waiting writer blocks new readers); oracle per schedule: protocol monitor on every connection, commit log = every message the server did not refuse exactly once with its own envelope and complete content (a refused one never), exactly the calls without a refused message return nil, no deadlock; plus a separate free-running pass of the same bodies under the Go race detector (2..64 goroutines, jittered I/O; preceded by eight fresh processes whose very first failing deliveries overlap in 8 goroutines, for state initialised on first use) — that pass samples schedules; distinct by (scenario, schedule)")
 			r.Assume("releases are not preemption points (sound for data-race-free code; races are the job of the separate -race pass)", "the race pass is sampling, not exhaustive: the 'no data race under any schedule' clause is only decided for the schedules it happens to run")
 			bound := 2
 			if r.Thorough {
@@ -420,6 +450,19 @@ func init() {
 				if r.Thorough {
 					limit = 20 * time.Minute
 				}
+				// state that is initialised on first use is raced for only once per process: eight fresh processes whose very
+				// first failures overlap (the main pass below follows)
+				firstUseOut := ""
+				for i := 0; i < 8 && firstUseOut == ""; i++ {
+					fctx, fcancel := context.WithTimeout(context.Background(), 60*time.Second)
+					fcmd := exec.CommandContext(fctx, bin, "racepass", "-1")
+					fcmd.Env = append(os.Environ(), "GORACE=halt_on_error=1 exitcode=66")
+					fb, _ := fcmd.CombinedOutput()
+					fcancel()
+					if strings.Contains(string(fb), "WARNING: DATA RACE") || strings.Contains(string(fb), "RACEPASS-FINDING") {
+						firstUseOut = string(fb)
+					}
+				}
 				ctx, cancel := context.WithTimeout(context.Background(), limit)
 				cmd := exec.CommandContext(ctx, bin, "racepass", iters)
 				cmd.Env = append(os.Environ(), "GORACE=halt_on_error=1 exitcode=66")
@@ -427,6 +470,9 @@ func init() {
 				hung := ctx.Err() != nil
 				cancel()
 				out := string(outb)
+				if firstUseOut != "" {
+					out, err = firstUseOut, fmt.Errorf("first-use pass failed")
+				}
 				rp := map[string]interface{}{"iterations": iters, "wall_s": time.Since(start).Seconds(), "goroutines": []int{2, 8, 64}, "exhaustive": false}
 				switch {
 				case hung:
